@@ -44,7 +44,7 @@ def check_sequence(rec):
         notional = p * q
         cash += (-notional if buy else notional) - fee
         fees += fee
-        gross += abs(notional) + fee
+        gross += abs(notional) + abs(fee)
         qsum += q
         eps = (i + 2) * (F(1, 10**25) + F(1, 10**23) * gross + F(1, 10**26) * qsum)
         ex, cur = o["exit"], o["cur"]
